@@ -59,15 +59,48 @@ def _generalise(shape):
     return tuple(out)
 
 
+def canon_key(shape):
+    """A deterministic, hash-order independent key of a shape."""
+    out = []
+    for e in shape:
+        if e[0] == 'g':
+            out.append(('g', tuple(sorted(canon_key(x) for x in e[1]))))
+        else:
+            out.append(tuple('' if x is None else str(x) for x in e))
+    return tuple(out)
+
+
+TRUNCATED = []
+
+
 def _cap(s):
+    """Bounds a shape set by *dropping* shapes, never by merging them: every
+    shape kept is one the rule really delivers, so a failure found on it is
+    real.  One representative per structural skeleton is kept first, so
+    arities and optional parts stay covered when node classes multiply."""
     if len(s) <= MAX_SET:
         return frozenset(s)
-    g = {_generalise(x) for x in s}
-    if len(g) <= MAX_SET:
-        return frozenset(g)
-    # keep the shortest and a spread of the rest
-    lst = sorted(g, key=lambda x: (len(x), repr(x)))
-    return frozenset(lst[:MAX_SET])
+    groups = {}
+    for x in s:
+        groups.setdefault(canon_key(_generalise(x)), []).append(x)
+    order = sorted(groups, key=lambda k: (len(k), k))
+    for k in order:
+        groups[k].sort(key=canon_key)
+    out = []
+    depth = 0
+    while len(out) < MAX_SET:
+        added = False
+        for k in order:
+            if depth < len(groups[k]):
+                out.append(groups[k][depth])
+                added = True
+                if len(out) >= MAX_SET:
+                    break
+        if not added:
+            break
+        depth += 1
+    TRUNCATED.append(len(s) - len(out))
+    return frozenset(out)
 
 
 class Shapes:
@@ -316,7 +349,7 @@ class Shapes:
             elif e[0] == 'g':
                 # choose one inner shape per outer instance: enumerate by
                 # expanding the outer shape set instead (see expand)
-                inner = sorted(e[1], key=repr)
+                inner = sorted(e[1], key=canon_key)
                 out.append(Toks(self.to_values(inner[0])) if inner
                            else Toks([]))
         return out
@@ -357,7 +390,7 @@ def expand_groups(shapes, limit=400):
     """Expand nested group alternatives so that each returned shape has
     exactly one inner shape per group."""
     out = []
-    for s in shapes:
+    for s in sorted(shapes, key=canon_key):
         opts = []
         for e in s:
             if e[0] == 'g':
@@ -384,7 +417,7 @@ def show_shape(shape):
         elif e[0] == 'N':
             out.append(e[1] or 'node')
         elif e[0] == 'g':
-            inner = sorted(e[1], key=repr)
+            inner = sorted(e[1], key=canon_key)
             out.append('[' + (show_shape(inner[0]) if inner else '') + ']')
     return ' '.join(out)
 
@@ -496,6 +529,7 @@ def analyse(repo):
         return _CACHE[key]
     sim = GenSim(repo)
     _install_node_construction(sim)
+    del TRUNCATED[:]
     sh = Shapes(repo, sim)
     rules = sorted({r for r, _ in R.parse_actions(repo)})
     sh.solve()
@@ -514,9 +548,10 @@ def analyse(repo):
            'problems': _dedupe(sh.problems),
            'unmodelled': sorted(set(sh.unmodelled))[:60],
            'n_unmodelled': len(set(sh.unmodelled)),
+           'dropped_shapes': sum(TRUNCATED),
            'samples': [{'rule': r, 'shapes': [show_shape(s) for s in
                                               sorted(sh.action_in.get(r, ()),
-                                                     key=repr)[:4]]}
+                                                     key=canon_key)[:4]]}
                        for r in rules[:12]]}
     _CACHE[key] = out
     return out
@@ -591,7 +626,14 @@ def check_parse_actions(ctx, pid):
     ctx.extra['grammar_shape_analysis'] = {
         'rules': res['rules'], 'n_unmodelled': res['n_unmodelled'],
         'unmodelled': [list(u) for u in res['unmodelled'][:30]],
+        'dropped_shapes': res['dropped_shapes'],
         'samples': res['samples']}
+    if res['dropped_shapes']:
+        ctx.observe(f'grammar shape analysis: {res["dropped_shapes"]} shape '
+                    f'combinations beyond the per-rule bound of {MAX_SET} '
+                    f'were not evaluated (one representative per structural '
+                    f'skeleton is kept first); shapes are dropped, never '
+                    f'merged, so every evaluated shape is deliverable')
     if res['n_unmodelled']:
         ctx.observe(f'grammar shape analysis: {res["n_unmodelled"]} '
                     f'unmodelled (rule, action) paths; undecided')
